@@ -367,6 +367,12 @@ def run(ctx):
     incs = [s for s in paths.field_stores(f, "fsg_search_s", "frame")]
     ctx.check(o12, len(incs) == 1 and incs[0]["op"] == "++" and paths.entry_must_pass(f, lambda e: e == incs[0]["node"]), key(f, "frame++"), f.where(f.root), "frame counter is not advanced exactly once per step")
     extra_rules(ctx, P, fns)
+    # the active grammar of a JSGF text is what its compilation yields: a compilation that lets two references to a
+    # rule share one expansion accepts cross-combinations, and what is reported is then a sentence of the compiled
+    # automaton but not of the grammar that was given (seed C01-10)
+    from . import c05
+    from ..report import Only
+    c05.run(Only(ctx, ("GUARD.J5-recursion",)))
 
 
 def _is_hmm_hist(g, s):
